@@ -8,16 +8,24 @@ Functions under contract (real source):
 Consequences argued from these obligations (not solver steps): one row per distinct key (keys strictly increasing under cmp, groups tile the
 rows); group sizes add up to len(d) (tiling); unlist() - the concatenation of the groups in key order - lists the rows in the order of the
 sorted (key, row number) pairs, which is the order dictable.sort computes from the same sort call, i.e. the stable sort.
-Bounded only (rac/C11.py): the constructors `type(self)(xs, by)`, update, concat in unlist/ungroup, pivot (xyz) and unpivot.
+  dictable.xyz       (pivot) the region from `xys, ids = self._listby(xykeys)` to the end of the double loop that fills the matrix `res`: for every (x, y) group
+                     its list of z values (row order; aggregated when agg is given) sits in row = its x group (rs._listby(x)), column = its y group
+                     (rs._listby((y_,)) through j2k), every other cell is None, nothing raises.  The three _listby calls by their contract (C02) plus the
+                     sort contract's permutation facts; interface lemmas about the groupings (every group listed in exactly one y group, groups of one
+                     x group lie in different y groups - from the cmp laws and the component-wise comparison of key tuples) are obligations of their own.
+                     Assumed (their bodies are bounded only): type(self)(xys, x + (y_,)) is the table of the group keys; len(rs[[y_]].listby(y_)) is the
+                     number of y groups.
+Bounded only (rac/C11.py): the constructors `type(self)(xs, by)` / `type(self)(res, labels)`, update, concat in unlist/ungroup, the column labels and final
+assembly of pivot, unpivot.
 """
 import ast
 import z3
-from z3 import And, Or, Not, If, Implies, Int, Ints, IntVal, BoolVal, ForAll, Const, Select
+from z3 import And, Or, Not, If, Implies, Int, Ints, IntVal, BoolVal, ForAll, Const, Select, Function, BoolSort, IntSort, ArraySort, Array
 
 from pyvc.front import select, SelectorError, OutOfSubset, find, find_all, walk_no_defs
 from pyvc.symex import Exec, State
 from pyvc.theories import TypePreds
-from pyvc.th_lists import Lists, Val, VAL, INT, LIST, fresh_list, V, as_list_sv, at
+from pyvc.th_lists import Lists, Val, NONEV, VAL, INT, LIST, fresh_list, V, as_list_sv, at
 from pyvc.th_tables import Tables, Key, KEY, fresh_table, wf, column
 from pyvc.sv import SV, I, B, T, fresh_name
 from contracts.C02 import listby_obligations
@@ -34,10 +42,467 @@ class ColumnAccess:
         return NotImplemented
 
 
+# ====================================================================================================== pivot (xyz): cell addressing
+XP = Function('x_part', Val, Val)                   # the x components of an (x..., y) group key
+YP = Function('y_part', Val, Val)                   # its y component
+AGG = Function('agg', Val, Val)                     # the supplied aggregating function (opaque)
+GATHER = Function('gather', ArraySort(IntSort(), Val), ArraySort(IntSort(), IntSort()), IntSort(), Val)   # the list [a[r[0]], ..., a[r[n-1]]] as one value
+K2 = Function('j2k', IntSort(), IntSort())          # j2k[g]
+INJ2K = Function('in_j2k', IntSort(), BoolSort())   # g is a key of j2k
+GRP3 = Function('y_group_of_position', IntSort(), IntSort())      # choice function: a y group containing a sorted position
+IA = lambda name: Array(name, IntSort(), IntSort())
+
+
+class FactBox:
+    """stands in for the executor while a callee contract is instantiated: the contract's facts are collected (they are hypotheses of the interface lemmas
+    only, the loop obligations see the lemmas), everything else goes to the executor"""
+
+    def __init__(self, ex):
+        self.ex, self.facts, self.pres = ex, [], []
+
+    def fact(self, f):
+        self.facts.append(f)
+
+    def use(self, what):
+        self.ex.use(what)
+
+    def oblige(self, st, name, goal, kind='safety', **kw):
+        self.pres.append((name, goal))
+
+
+class Pivot:
+    """what the pivot region needs around its three _listby calls.  By *assumed* contract (their bodies are bounded only): `type(self)(xys, x + (y_,))` is the
+    table of the group keys; `rs[[y_]].listby(y_)` has one row per group of `rs._listby((y_,))` (the same column grouped by the same function)."""
+
+    def __init__(self, tbl, box):
+        self.tbl, self.box = tbl, box
+        self.zs = fresh_list(VAL, 'zs')
+        self.NY = Int('NY')
+
+    def call(self, ex, st, e, fname, args, kwargs):
+        a0 = args[0] if args else None
+        if fname == 'type' and len(args) == 1 and a0.kind == 'obj' and a0.f.get('cls') == 'dictable':
+            return SV('cls', None, name='dictable')
+        if fname == 'as_list' and len(args) == 1 and a0.kind == 'str':
+            return SV('namelist', None, names=[a0.lit])
+        if fname == 'len' and len(args) == 1 and a0.kind == 'ystable':
+            return I(self.NY)
+        if fname == 'dict' and len(args) == 1 and a0.kind == 'list' and a0.f.get('ety') is not None and a0.ety.kind == 'tuple' and len(a0.arrs) == 2:
+            return SV('y2id', None)          # only its keys are used afterwards (column labels: outside the region)
+        if fname == 'enumerate' and len(args) == 1 and a0.kind == 'list':
+            return SV('enum', None, of=a0)
+        if fname in st.env and st.env[fname].kind == 'aggfunc' and len(args) == 1:
+            if a0.kind not in ('val', 'gather'):
+                raise OutOfSubset('aggregating a %s' % a0.kind)
+            ex.use('model:the aggregating function is an opaque function of the list it is given')
+            return V(AGG(a0.t))
+        return NotImplemented
+
+    def call_value(self, ex, st, e, fn, args, kwargs):
+        if fn.kind == 'cls' and len(args) == 2 and args[0].kind == 'list' and args[1].kind == 'tuple':
+            ex.use('assumed contract:type(self)(xys, x + (y_,)) is the table with one row per (x, y) group holding the x components and the y component of the group '
+                   'key, so rs[x] / rs[(y_,)] are these components row by row (constructor from rows + headers: bounded only; tuple projection: proved in C01)')
+            g = Int('g!rs')
+            keys = args[0].arrs[0]
+            for nm, part in (('rs_x', XP), ('rs_y', YP)):
+                ks = self.tbl.key_list(nm)
+                self.box.fact(And(ks.t == args[0].t, ForAll([g], Implies(And(0 <= g, g < ks.t), ks.arrs[0][g] == part(Select(keys, g))))))
+            return self.tbl.table('rs')
+        return NotImplemented
+
+    def binop(self, ex, st, e, op, a, b):
+        if op == 'Add' and a.kind == 'tuple' and b.kind == 'tuple':
+            return T(list(a.items) + list(b.items))
+        return NotImplemented
+
+    def subscript(self, ex, st, e, recv, idx):
+        if recv.kind == 'obj' and recv.f.get('cls') == 'dictable' and idx.kind == 'zspec':
+            ex.use('callee contract:self[z] for a column name is the stored column, one entry per row (proved in C01 __getitem__.column.*); z given as a callable: bounded only')
+            return self.zs
+        if recv.kind == 'obj' and recv.f.get('cls') == 'dictable' and idx.kind == 'namelist':
+            return SV('yproj', None, of=recv.name)
+        if recv.kind == 'ystable' and idx.kind == 'str':
+            return fresh_list(VAL, 'ys', n=self.NY)
+        if recv.kind == 'j2k' and idx.kind == 'int':
+            ex.use('axiom:{j: k for k, js in enumerate(yrows) for j in js} maps every j listed in some yrows[k] to (the last such) k; a lookup of anything else raises KeyError')
+            ex.raise_if(st, Not(INJ2K(idx.t)), 'KeyError')
+            return I(K2(idx.t))
+        return NotImplemented
+
+    def method(self, ex, st, e, recv, mname, args, kwargs):
+        if recv.kind == 'yproj' and mname == 'listby' and len(args) == 1 and args[0].kind == 'str':
+            ex.use('assumed contract:rs[[y_]].listby(y_) has one row per group of rs._listby((y_,)), in the same order (listby is _listby - proved - followed by a '
+                   'constructor and update, which are bounded only)')
+            return SV('ystable', None)
+        return NotImplemented
+
+    def dictcomp(self, ex, st, e):
+        gs = e.generators
+        if len(gs) != 2 or gs[0].ifs or gs[1].ifs or not (isinstance(gs[0].target, ast.Tuple) and len(gs[0].target.elts) == 2):
+            return NotImplemented
+        it = ex.eval(st, gs[0].iter)
+        if it.kind != 'enum':
+            return NotImplemented
+        lst = it.f['of']
+        k0, p0 = Int('k!j2k'), Int('p!j2k')
+        sub = st.fork(); sub.env = dict(st.env); sub.pending = []
+        ex.assign(sub, gs[0].target, T([I(k0), at(lst, k0)]), None)
+        inner = ex.eval(sub, gs[1].iter)
+        if inner.kind != 'list' or inner.f.get('ety') != INT:
+            raise OutOfSubset('j2k: inner generator over %s' % inner.kind)
+        ex.assign(sub, gs[1].target, I(Select(inner.arrs[0], p0)), None)
+        key, val = ex.eval(sub, e.key), ex.eval(sub, e.value)
+        if key.kind != 'int' or val.kind != 'int' or sub.pending:
+            raise OutOfSubset('j2k: key / value of kind %s / %s' % (key.kind, val.kind))
+        rng = And(0 <= k0, k0 < lst.t, 0 <= p0, p0 < inner.t)
+        g = Int('g!j2k')
+        defs = [ForAll([g], INJ2K(g) == z3.Exists([k0, p0], And(rng, key.t == g))), ForAll([k0, p0], Implies(rng, K2(key.t) == val.t))]
+        for f in defs:
+            self.box.fact(f)
+        st.ghost['j2k'] = dict(k0=k0, p0=p0, rng=rng, key=key.t, val=val.t, facts=defs)
+        return SV('j2k', None)
+
+    def listcomp(self, ex, st, e):
+        if len(e.generators) != 1 or e.generators[0].ifs:
+            return NotImplemented
+        g = e.generators[0]
+        # [[None for _ in range(a)] for _ in range(b)]: the b x a matrix of None
+        if isinstance(e.elt, ast.ListComp) and len(e.elt.generators) == 1 and not e.elt.generators[0].ifs and isinstance(e.elt.elt, ast.Constant) \
+                and e.elt.elt.value is None:
+            outer, inner = ex.eval(st, g.iter), ex.eval(st, e.elt.generators[0].iter)
+            if outer.kind == 'range' and inner.kind == 'range':
+                ex.use('axiom:[[None for _ in range(a)] for _ in range(b)] is a list of b lists of a Nones')
+                return SV('list', outer.n, ety=LIST(VAL), arrs=[z3.K(IntSort(), inner.n), z3.K(IntSort(), z3.K(IntSort(), NONEV))])
+        # [zs[i] for i in rows]: the list of the values at the listed positions, as one value
+        probe = st.fork()
+        try:
+            it = ex.eval(probe, g.iter)
+        except OutOfSubset:
+            return NotImplemented
+        if it.kind == 'list' and it.f.get('ety') == INT and isinstance(g.target, ast.Name):
+            it = ex.eval(st, g.iter)
+            i0, p0 = Int(fresh_name('id')), Int(fresh_name('p'))
+            sub = st.fork(); sub.pending = []
+            bind = And(0 <= p0, p0 < it.t, i0 == Select(it.arrs[0], p0))
+            sub.pc.append(bind)
+            sub.env = dict(st.env); sub.env[g.target.id] = I(i0)
+            n0 = len(sub.pc)
+            v = ex.eval(sub, e.elt)
+            if v.kind != 'val':
+                return NotImplemented
+            for o in sub.pending:
+                side = st.fork(); side.guards = []
+                side.pc += st.guards + [bind] + o.st.pc[n0:]
+                st.pending.append(type(o)('raise', side, o.val))
+            src = self.zs.arrs[0]
+            ex.oblige(sub, 'cell_list.element_is_the_z_value_of_the_listed_row', v.t == Select(src, i0), kind='post')
+            ex.use('engine:a map-form comprehension over a list of positions is taken as one value gather(column, positions, n)')
+            return SV('gather', GATHER(src, it.arrs[0], it.t))
+        return NotImplemented
+
+    def store_subscript(self, ex, st, tg, recv, idx, v):
+        if recv.kind == 'list' and idx.kind == 'int' and recv.f.get('ety') == VAL and v.kind in ('val', 'gather', 'none'):
+            ex.raise_if(st, Not(And(0 <= idx.t, idx.t < recv.t)), 'IndexError')
+            term = NONEV if v.kind == 'none' else v.t
+            return SV('list', recv.t, ety=VAL, arrs=[z3.Store(recv.arrs[0], idx.t, term)])
+        if recv.kind == 'list' and idx.kind == 'int' and recv.f.get('ety') == LIST(VAL) and v.kind == 'list':
+            ex.raise_if(st, Not(And(0 <= idx.t, idx.t < recv.t)), 'IndexError')
+            return SV('list', recv.t, ety=LIST(VAL), arrs=[z3.Store(recv.arrs[0], idx.t, v.t), z3.Store(recv.arrs[1], idx.t, v.arrs[0])])
+        return NotImplemented
+
+    def truth(self, ex, st, v):
+        if v.kind == 'lazylist' and v.f.get('items') is not None:
+            return BoolVal(len(v.f['items']) > 0)
+        return NotImplemented
+
+    def concrete_items(self, ex, st, it):
+        if it.kind == 'lazylist' and it.f.get('items') is not None:
+            return it.f['items']
+        return NotImplemented
+
+    def is_none(self, ex, st, v):
+        if v.kind in ('gather', 'y2id', 'j2k', 'ystable', 'yproj', 'cls', 'obj', 'enum'):
+            return BoolVal(False)
+        return NotImplemented
+
+
+def listby_call_contract(box, st, tbl, name):
+    """_listby at a call site: C02's contract (proved on the body: groups tile the sorted pairs, keys strictly increasing, members carry the group key, rows
+    listed in sorted order, rows of a group ascending) together with what the sort contract (C07) says about the sorted pairs themselves: their second
+    components are a permutation of the row numbers and the first component is that row's key."""
+    from contracts.C02 import listby_contract
+    r = listby_contract(box, st, tbl, name)
+    G = tbl.groups[name]
+    ks = tbl.key_list(name)
+    n, sk, si = G['n'], G['sk'], G['si']
+    inv = IA(fresh_name('inv_' + name))
+    p = Int('p!pc')
+    box.use('assumed contract:sort(list of (key, i)) returns a permutation that is non-decreasing under cmp on pairs (property C07)')
+    box.fact(ForAll([p], Implies(And(0 <= p, p < n), And(0 <= si[p], si[p] < n, sk[p] == ks.arrs[0][si[p]], inv[si[p]] == p))))
+    box.fact(ForAll([p], Implies(And(0 <= p, p < n), And(0 <= inv[p], inv[p] < n, si[inv[p]] == p))))
+    G['inv'] = inv
+    return r
+
+
+def xyz_obligations(ctx, m):
+    """The pivot region of dictable.xyz: from `xys, ids = self._listby(xykeys)` to the end of the double loop that fills the matrix `res`.
+    Interface lemmas (proved once, from the contracts of the three _listby calls, the cmp laws and the lexicographic comparison of key tuples): the rows and groups
+    listed are in range, every (x, y) group is listed in exactly one y group (so j2k is defined on all of them), two groups of one x group lie in different y
+    groups (no cell is written twice).  Loop obligations (invariants with a ghost 'writer' matrix): after the loops, for every (x, y) group its list of z values
+    (row order; aggregated when agg is given) sits in row = its x group, column = its y group, and every other cell is None."""
+    from contracts.C02 import Table, laws, start_of
+    from pyvc.symex import LoopSpec
+    from pyvc.th_lists import cmpf
+    from pyvc.ground import ground_obligation
+    fdef = m.func('dictable.xyz')
+    fors = find_all(fdef, lambda x: isinstance(x, ast.For))
+    if len(fors) != 3:
+        raise SelectorError('xyz: expected the loops over x groups, over the (x, y) groups of one x group, and over the aggregating functions')
+    outer, inner, aggloop = fors
+    body = [s for s in fdef.body if not (isinstance(s, ast.Expr) and isinstance(s.value, ast.Constant))]
+    first = [k_ for k_, s in enumerate(body) if isinstance(s, ast.Assign) and isinstance(s.value, ast.Call) and ast.unparse(s.value.func).endswith('._listby')]
+    if not first or outer not in body:
+        raise SelectorError('xyz: no `xys, ids = self._listby(xykeys)` before the loops')
+    prelude = body[first[0]: body.index(outer)]
+    store = [s for s in walk_no_defs(inner) if isinstance(s, ast.Assign) and isinstance(s.targets[0], ast.Subscript) and isinstance(s.targets[0].value, ast.Subscript)]
+    if len(store) != 1:
+        raise SelectorError('xyz: expected one cell assignment res[i][k] = value')
+    label = 'xyz'
+    tbl = Table(); tbl.by_contract = False
+    holder = {}
+
+    class Calls:        # the three _listby calls, by the extended contract; which key projection is meant is read off the argument
+        def method(self, ex, st, e, recv, mname, args, kwargs):
+            if recv.kind == 'obj' and recv.f.get('cls') == 'dictable' and mname == '_listby' and len(args) == 1:
+                if recv.name == 'self':
+                    nm = 'self'
+                elif args[0].kind == 'tuple' and len(args[0].items) == 1 and args[0].items[0].kind == 'str' and args[0].items[0].lit == st.env['y_'].lit:
+                    nm = 'rs_y'
+                else:
+                    nm = 'rs_x'
+                return listby_call_contract(holder['box'], st, tbl, nm)
+            return NotImplemented
+
+    def clauses(st, i, p):
+        """the matrix after the (x, y) groups listed before position p of x group i (and all of the x groups before i) have been written"""
+        L1, L2 = tbl.groups['self'], tbl.groups['rs_x']
+        res = st.env['res']
+        rowlen, rows = res.arrs
+        rlen1, rows1 = L1['ids'].arrs
+        rlen2, rows2 = L2['ids'].arrs
+        NX = L2['xs'].t
+        zsa = piv.zs.arrs[0]
+        cell = lambda g: (AGG(GATHER(zsa, rows1[g], rlen1[g])) if holder['agg'] else GATHER(zsa, rows1[g], rlen1[g]))
+        i2, p2, q2 = Ints('i!pv p!pv q!pv')
+        done = lambda a, b: Or(a < i, And(a == i, b < p))
+        W = st.ghost['W']
+        return [('matrix_has_one_row_per_x_group_and_one_cell_per_y_group', And(res.t == NX, ForAll([i2], Implies(And(0 <= i2, i2 < NX), rowlen[i2] == piv.NY)))),
+                ('every_group_written_so_far_sits_in_the_cell_of_its_x_group_and_y_group',
+                 ForAll([i2, p2], Implies(And(0 <= i2, i2 < NX, 0 <= p2, p2 < rlen2[i2], done(i2, p2)),
+                                          rows[i2][K2(rows2[i2][p2])] == cell(rows2[i2][p2])))),
+                ('a_cell_no_group_was_written_to_is_None',
+                 ForAll([i2, q2], Implies(And(0 <= i2, i2 < NX, 0 <= q2, q2 < piv.NY),
+                                          Or(rows[i2][q2] == NONEV,
+                                             And(0 <= W[i2][q2], W[i2][q2] < rlen2[i2], done(i2, W[i2][q2]), K2(rows2[i2][W[i2][q2]]) == q2)))))]
+
+    def inv_outer(st, entry):
+        return clauses(st, st.ghost[holder['label'] + '.For0.k'], IntVal(0))
+
+    def inv_inner(st, entry):
+        i = st.env['i'].t
+        return clauses(st, i, st.ghost[holder['label'] + '.For1.k']) + [('x_group_in_range', And(0 <= i, i < tbl.groups['rs_x']['xs'].t))]
+
+    def ghost_havoc(ex, st):
+        st.ghost['W'] = Array(fresh_name('W'), IntSort(), ArraySort(IntSort(), IntSort()))
+
+    def after_store(ex, st, s):      # ghost: which listed group wrote cell (i, k)
+        i, k = st.env['i'].t, st.env['k'].t
+        W = st.ghost['W']
+        st.ghost['W'] = z3.Store(W, i, z3.Store(W[i], k, st.ghost[holder['label'] + '.For1.k']))
+
+    protos = dict(res=fresh_list(LIST(VAL), 'res'))
+
+    def specs(lbl):
+        return {id(outer): LoopSpec(lbl + '.For0', inv_outer, ghost_havoc=ghost_havoc, protos=protos),
+                id(inner): LoopSpec(lbl + '.For1', inv_inner, ghost_havoc=ghost_havoc, protos=protos, keep=('i',))}      # i is only read (res[i][k] = ...): the engine's assigned-names scan is syntactic
+    holder.update(label='xyz', agg=False)
+    ex = Exec(m, [], loops=specs('xyz'), hooks=[(lambda s: s is store[0], after_store)], name=label, prune=False)
+    box = FactBox(ex)
+    holder['box'] = box
+    piv = Pivot(tbl, box)
+    ex.theories = [Calls(), piv, tbl, Lists(), TypePreds()]
+    aggs = lambda with_agg: SV('lazylist', None, n=IntVal(1 if with_agg else 0), items=[SV('aggfunc')] if with_agg else [], at=None)
+    env = {'self': tbl.table('self'), 'xykeys': SV('colspec'), 'x': T([SV('str', None, lit='x')]), 'y': SV('str', None, lit='y'), 'z': SV('zspec'), 'agg': aggs(False)}
+    st = State(env=env)
+    st.ghost['W'] = Array('W0', IntSort(), ArraySort(IntSort(), IntSort()))
+    n_ob = len(ctx.obligations)
+    pre_outs = ex.run_block(st, prelude)
+    live = [o.st for o in pre_outs if o.kind == 'next']
+    for o in pre_outs:
+        if o.kind != 'next':
+            ctx.post(label + '.prelude_never_raises.%s' % o.val, ex.facts + box.facts + o.st.pc, BoolVal(False), kind='safety')
+    if len(live) != 1:
+        raise OutOfSubset('xyz: the statements before the loops have %d normal exits' % len(live))
+    st = live[0]
+    L1, L2, L3 = tbl.groups['self'], tbl.groups['rs_x'], tbl.groups['rs_y']
+    n_self, G, NX, NYG = L1['n'], L1['xs'].t, L2['xs'].t, L3['xs'].t
+    KEYS = L1['xs'].arrs[0]
+    rlen1, rows1 = L1['ids'].arrs
+    rlen2, rows2 = L2['ids'].arrs
+    rlen3, rows3 = L3['ids'].arrs
+    a_, b_ = Const('a!h', Val), Const('b!h', Val)
+    g_, i_, k_, p1_, p2_, pos_, h_ = Ints('g!h i!h k!h p1!h p2!h pos!h h!h')
+    assumed = [piv.NY == NYG, piv.zs.t == n_self, n_self >= 1]
+    ctx.trust('xyz: len(rs[[y_]].listby(y_)) is the number of groups of rs._listby((y_,)) and len(self[z]) the number of rows (assumed: see the use texts)')
+    lex = ForAll([a_, b_], (cmpf(a_, b_) == 0) == And(cmpf(XP(a_), XP(b_)) == 0, cmpf(YP(a_), YP(b_)) == 0))
+    ctx.trust('cmp of two (x..., y) key tuples is 0 iff it is 0 on the x components and on the y component (C07: tuples are compared component by component)')
+    base = box.facts + assumed
+
+    # ---------------- interface lemmas: what the loop obligations may use about the three groupings.  Every lemma gets exactly the clauses of the
+    # contracts it needs (the same formulas listby_call_contract asserted), so that the queries stay small
+    from contracts.C02 import listby_post
+
+    def clause(L, nm, cname):        # the clause as the contract states it: conditional on a non-empty table
+        return Implies(L['n'] >= 1, listby_post(L['n'], L['sk'], L['si'], L['xs'], L['ids'], L['END'])[cname])
+
+    def perm(L, nm):
+        ks, n, sk, si, inv = tbl.key_list(nm), L['n'], L['sk'], L['si'], L['inv']
+        p = Int('p!pc')
+        return [ForAll([p], Implies(And(0 <= p, p < n), And(0 <= si[p], si[p] < n, sk[p] == ks.arrs[0][si[p]], inv[si[p]] == p))),
+                ForAll([p], Implies(And(0 <= p, p < n), And(0 <= inv[p], inv[p] < n, si[inv[p]] == p)))]
+
+    def keyfact(nm, part):
+        ks = tbl.key_list(nm)
+        g = Int('g!rs')
+        return And(ks.t == G, ForAll([g], Implies(And(0 <= g, g < ks.t), ks.arrs[0][g] == part(Select(KEYS, g)))))
+    for f in [clause(L, nm, c_) for L, nm in ((L1, 'self'), (L2, 'rs_x'), (L3, 'rs_y')) for c_ in listby_post(L['n'], L['sk'], L['si'], L['xs'], L['ids'], L['END'])] \
+            + perm(L1, 'self') + perm(L2, 'rs_x') + perm(L3, 'rs_y') + [keyfact('rs_x', XP), keyfact('rs_y', YP)]:
+        if not any(z3.eq(f, b) for b in box.facts):
+            raise OutOfSubset('xyz: a clause used by the interface lemmas is not among the facts of the callee contracts')
+    NAMES = {id(L1): 'self', id(L2): 'rs_x', id(L3): 'rs_y'}
+    C = lambda L, cname: clause(L, NAMES[id(L)], cname)
+    sizes = [n_self >= 1, C(L1, 'at_least_one_group'), C(L1, 'same_number_of_keys_and_rows'), keyfact('rs_x', XP), keyfact('rs_y', YP),
+             C(L2, 'at_least_one_group'), C(L2, 'same_number_of_keys_and_rows'), C(L3, 'at_least_one_group'), C(L3, 'same_number_of_keys_and_rows')]
+    facts = {}
+    facts['shapes'] = And(G >= 1, NX >= 1, NYG >= 1, L2['n'] == G, L3['n'] == G, L2['ids'].t == NX, L3['ids'].t == NYG, L1['ids'].t == G)
+    facts['x_listing_in_range'] = ForAll([i_, p1_], Implies(And(0 <= i_, i_ < NX, 0 <= p1_, p1_ < rlen2[i_]), And(0 <= rows2[i_][p1_], rows2[i_][p1_] < G)))
+    facts['listed_rows_in_range'] = ForAll([g_, p1_], Implies(And(0 <= g_, g_ < G, 0 <= p1_, p1_ < rlen1[g_]), And(0 <= rows1[g_][p1_], rows1[g_][p1_] < n_self)))
+    facts['every_group_is_a_key_of_j2k_with_a_y_group_as_value'] = ForAll([g_], Implies(And(0 <= g_, g_ < G), And(INJ2K(g_), 0 <= K2(g_), K2(g_) < NYG)))
+    facts['groups_of_one_x_group_lie_in_different_y_groups'] = ForAll([i_, p1_, p2_], Implies(And(0 <= i_, i_ < NX, 0 <= p1_, p1_ < p2_, p2_ < rlen2[i_]),
+                                                                                             K2(rows2[i_][p1_]) != K2(rows2[i_][p2_])))
+    shapes = facts['shapes']
+    keep_quantified = set()
+
+    def lem(name, hyps, goal, grounded=True):
+        ob = ctx.post('xyz.lemma.' + name, hyps, goal, kind='lemma')
+        if not grounded:         # pure consequences of other lemmas that need chains of the cmp laws: left to the solver's own instantiation
+            keep_quantified.add(id(ob))
+        return ob
+    lem('sizes_of_the_three_groupings', sizes, shapes)
+
+    def tiling(L):        # what is needed to turn a position inside a group into a position of the sorted list
+        return [C(L, 'groups_tile_all_rows'), C(L, 'ends_increase'), C(L, 'rows_listed_in_sorted_order'), shapes, n_self >= 1]
+    END3 = L3['END']
+    claim3 = lambda h: ForAll([pos_], Implies(And(0 <= pos_, pos_ < END3[h]), z3.Exists([g_], And(0 <= g_, g_ <= h, start_of(END3, g_) <= pos_, pos_ < END3[g_]))))
+    cover3 = ForAll([pos_], Implies(And(0 <= pos_, pos_ < G), z3.Exists([g_], And(0 <= g_, g_ < NYG, start_of(END3, g_) <= pos_, pos_ < END3[g_]))))
+    lem('y_grouping.every_position_lies_in_a_group.base', [], claim3(IntVal(0)))
+    lem('y_grouping.every_position_lies_in_a_group.step', [0 <= h_, claim3(h_)], claim3(h_ + 1))
+    lem('y_grouping.every_position_lies_in_a_group.conclusion', [claim3(NYG - 1), C(L3, 'groups_tile_all_rows'), shapes], cover3)
+    ctx.trust('induction over the groups of a tiling (base and step are obligations)')
+    inv3 = L3['inv']
+    # a choice function for the existential just proved (definition by choice: conservative), so that the witnesses below are terms
+    in_grp = lambda g, pos: And(0 <= g, g < NYG, start_of(END3, g) <= pos, pos < END3[g])
+    choice = ForAll([pos_], Implies(z3.Exists([g_], in_grp(g_, pos_)), in_grp(GRP3(pos_), pos_)))
+    ctx.trust('definition by choice: y_group_of_position(pos) is some group that contains the sorted position pos, when there is one')
+    cover3f = ForAll([pos_], Implies(And(0 <= pos_, pos_ < G), in_grp(GRP3(pos_), pos_)))
+    lem('y_grouping.the_group_of_a_position', [cover3, choice], cover3f)
+    YG = lambda g: GRP3(inv3[g])                              # the y group that lists the (x, y) group g ...
+    at3 = lambda g: inv3[g] - start_of(END3, YG(g))           # ... and where: its sorted position minus the group's start
+    listed_y = ForAll([g_], Implies(And(0 <= g_, g_ < G), And(0 <= YG(g_), YG(g_) < NYG, 0 <= at3(g_), at3(g_) < rlen3[YG(g_)], rows3[YG(g_)][at3(g_)] == g_)))
+    lem('every_group_is_listed_in_a_y_group', [cover3f] + tiling(L3) + perm(L3, 'rs_y'), listed_y)
+    once_y = ForAll([k_, p1_, h_, p2_], Implies(And(0 <= k_, k_ < NYG, 0 <= p1_, p1_ < rlen3[k_], 0 <= h_, h_ < NYG, 0 <= p2_, p2_ < rlen3[h_], rows3[k_][p1_] == rows3[h_][p2_]),
+                                                And(k_ == h_, p1_ == p2_)))
+    lem('no_group_is_listed_in_two_y_groups', tiling(L3) + perm(L3, 'rs_y'), once_y)
+    ctx.trust('the dict comprehension j2k assigns every key once (lemma no_group_is_listed_in_two_y_groups), so "the last k wins" is "the k that lists j"')
+    member_y = ForAll([k_, p1_], Implies(And(0 <= k_, k_ < NYG, 0 <= p1_, p1_ < rlen3[k_]),
+                                         And(0 <= rows3[k_][p1_], rows3[k_][p1_] < G, cmpf(YP(KEYS[rows3[k_][p1_]]), L3['xs'].arrs[0][k_]) == 0)))
+    lem('members_of_a_y_group_have_its_y_value', tiling(L3) + perm(L3, 'rs_y') + [C(L3, 'members_have_the_group_key'), keyfact('rs_y', YP)], member_y)
+    member_x = ForAll([i_, p1_], Implies(And(0 <= i_, i_ < NX, 0 <= p1_, p1_ < rlen2[i_]),
+                                         And(0 <= rows2[i_][p1_], rows2[i_][p1_] < G, cmpf(XP(KEYS[rows2[i_][p1_]]), L2['xs'].arrs[0][i_]) == 0)))
+    lem('members_of_an_x_group_have_its_x_key', tiling(L2) + perm(L2, 'rs_x') + [C(L2, 'members_have_the_group_key'), keyfact('rs_x', XP)], member_x)
+    lem('listed_groups_are_groups', [member_x], facts['x_listing_in_range'])
+    lem('listed_rows_are_rows', tiling(L1) + perm(L1, 'self'), facts['listed_rows_in_range'])
+    j2 = st.ghost['j2k']
+    j2k_def = j2['facts']
+    y_of = ForAll([g_], Implies(And(0 <= g_, g_ < G), K2(g_) == YG(g_)))
+    lem('j2k_maps_every_group_to_the_y_group_that_lists_it', j2k_def + [listed_y, shapes], And(facts['every_group_is_a_key_of_j2k_with_a_y_group_as_value'], y_of))
+    y_value = ForAll([g_], Implies(And(0 <= g_, g_ < G), cmpf(YP(KEYS[g_]), L3['xs'].arrs[0][K2(g_)]) == 0))
+    lem('every_group_has_the_y_value_of_its_y_group', [y_of, listed_y, member_y], y_value)
+    ordered_x = ForAll([i_, p1_, p2_], Implies(And(0 <= i_, i_ < NX, 0 <= p1_, p1_ < p2_, p2_ < rlen2[i_]), rows2[i_][p1_] < rows2[i_][p2_]))
+    increasing = ForAll([g_, h_], Implies(And(0 <= g_, g_ < h_, h_ < G), cmpf(KEYS[g_], KEYS[h_]) == -1))
+    lem('order_facts_of_the_groupings', [C(L2, 'rows_of_a_group_in_original_order'), C(L1, 'keys_strictly_increasing'), shapes, n_self >= 1], And(ordered_x, increasing))
+    c_ = Const('c!h', Val)
+    equiv = ForAll([a_, b_, c_], Implies(And(cmpf(a_, b_) == 0, cmpf(c_, b_) == 0), cmpf(a_, c_) == 0))
+    lem('cmp_equality_is_an_equivalence', laws(), equiv)
+    lem('groups_of_one_x_group_lie_in_different_y_groups', [equiv, lex, member_x, y_value, ordered_x, increasing], facts['groups_of_one_x_group_lie_in_different_y_groups'],
+        grounded=False)
+    for nm_, goal_ in box.pres:
+        ctx.post('xyz.' + nm_, sizes, goal_, kind='pre')
+    loop_facts = list(facts.values()) + assumed
+
+    # ---------------- the loops, without and with an aggregating function
+    for with_agg in (False, True):
+        label = 'xyz.agg' if with_agg else 'xyz'
+        holder.update(label=label, agg=with_agg)
+        ex.name, ex.loops = label, specs(label)
+        st2 = st.fork()
+        st2.env['agg'] = aggs(with_agg)
+        n_abs = len(ctx.obligations)
+        outs = ex.run_block(st2, [outer])
+        ctx.absorb(ex)
+        for ob in ctx.obligations[n_abs:]:
+            ob.hyps = list(ob.hyps) + loop_facts
+        nexit = 0
+        for out in outs:
+            hy = ex.facts + out.st.pc + loop_facts
+            if out.kind != 'next':
+                ctx.post(label + '.loops_never_raise.%s' % out.val, hy, BoolVal(False), kind='safety')
+                continue
+            nexit += 1
+            res = out.st.env['res']
+            rowlen, rows = res.arrs
+            zsa = piv.zs.arrs[0]
+            cell = lambda g: (AGG(GATHER(zsa, rows1[g], rlen1[g])) if with_agg else GATHER(zsa, rows1[g], rlen1[g]))
+            i2, p2, q2 = Ints('i!po p!po q!po')
+            ctx.post(label + '.post.matrix_has_one_row_per_x_group_and_one_cell_per_y_group', hy, And(res.t == NX, ForAll([i2], Implies(And(0 <= i2, i2 < NX), rowlen[i2] == NYG))))
+            ctx.post(label + '.post.the_z_values_of_every_group_sit_in_the_cell_of_its_x_group_and_y_group', hy,
+                     ForAll([i2, p2], Implies(And(0 <= i2, i2 < NX, 0 <= p2, p2 < rlen2[i2]), rows[i2][K2(rows2[i2][p2])] == cell(rows2[i2][p2]))))
+            ctx.post(label + '.post.a_cell_without_a_group_is_None', hy,
+                     ForAll([i2, q2], Implies(And(0 <= i2, i2 < NX, 0 <= q2, q2 < NYG, rows[i2][q2] != NONEV),
+                                              z3.Exists([p2], And(0 <= p2, p2 < rlen2[i2], K2(rows2[i2][p2]) == q2)))))
+        if nexit == 0:
+            raise OutOfSubset('xyz: the loops have no normal exit')
+    ctx.record_function(m, 'dictable.xyz', fdef, ex.stmts_executed,
+                        excluded=['x / agg normalisation, the empty table, z given as a callable, the column labels (y2id) and the final assembly type(self)(xs, x), '
+                                  'type(self)(res, columns), update: bounded only'])
+    import os
+    for ob in ctx.obligations[n_ob:]:
+        if ob.kind != 'syntactic' and id(ob) not in keep_quantified and not os.environ.get('PYVC_NO_GROUND'):
+            ground_obligation(ob, rounds=3 if ob.kind == 'lemma' else 2, cap=2000 if ob.kind == 'lemma' else 600)
+    ctx.trust('engine:obligations of the pivot section are discharged on their grounding (universal hypotheses replaced by instances over the index terms of the query)')
+
+
 def build(ctx):
     m = ctx.mod('_dictable')
     ctx.trust('cmp laws (range, antisymmetry, transitivity) are hypotheses here: they are the subject of property C07')
+    n_lb = len(ctx.obligations)
     ctx.guarded('_listby', lambda: listby_obligations(ctx, m))
+    # the loop-invariant obligations of _listby are discharged on their grounding here, so that a broken loop body comes back `sat` (a named violation)
+    # rather than `unknown`; C02 discharges the same obligations with the solver's own quantifier instantiation
+    from pyvc.ground import ground_obligation
+    for ob in ctx.obligations[n_lb:]:
+        if '.inv_preserved.' in ob.name:
+            ground_obligation(ob, rounds=2, cap=600)
 
     def cells(fname, outer_is_nested):
         fdef = m.func('dictable.' + fname)
@@ -48,7 +513,10 @@ def build(ctx):
         comp = inner[0]
         gen = comp.generators[0]
         kname = ast.unparse(comp.elt.value.slice)
-        yname = ast.unparse(gen.iter)
+        ynames = [x.id for x in ast.walk(gen.iter) if isinstance(x, ast.Name)]
+        if len(ynames) != 1:
+            raise SelectorError('%s: the cell comprehension does not iterate one group list' % fname)
+        yname = ynames[0]
         n = Int('N')
         t = fresh_table('self')
         y = fresh_list(INT, 'group')
@@ -80,6 +548,7 @@ def build(ctx):
         ctx.post('%s.cells.computed_for_every_group_of__listby' % fname, [], BoolVal(bool(outer) and ids_name is not None and ids_name in src and yname in
                                                                                   [ast.unparse(c.generators[0].target) for c in outer]), kind='syntactic')
 
+    ctx.guarded('xyz', lambda: xyz_obligations(ctx, m))
     ctx.guarded('listby', lambda: cells('listby', True))
     ctx.guarded('groupby', lambda: cells('groupby', False))
     ctx.trust('that listby / groupby apply the cell comprehension to the ids returned by _listby is checked on the AST (iteration source), not symbolically')
